@@ -221,6 +221,16 @@ def pmap(fn, items, procs=None, chunksize=None):
         return pool.map(fn, items, chunksize=chunksize)
 
 
+def grouped(items, keyfn):
+    """Group items that share keyfn(item) into one list each (order preserved): items of one group are processed
+    sequentially in ONE worker process, so that anything the library caches across calls (module-level problem
+    caches, memoised transforms) meets a different configuration of the same system."""
+    groups = {}
+    for it in items:
+        groups.setdefault(keyfn(it), []).append(it)
+    return list(groups.values())
+
+
 def run_property(mod, pid, argv):
     import argparse
     ap = argparse.ArgumentParser()
